@@ -379,3 +379,189 @@ Theorem C17_adjusted_row0 : forall (F : fieldType) (n k : nat) (theta : 'cV[F]_n
   (b : 'cV[F]_k) (i : 'I_n), row i X = 0 -> adjusted theta X b i 0 = theta i 0.
 Proof. exact: adjusted_row0. Qed.
 Print Assumptions C17_adjusted_row0.
+
+(** ---- non-vacuity of the hypotheses (audit) ---- *)
+(** list level: one sample (4 rows, 2 summaries; row 1 has a non-finite summary, row 3 a non-finite parameter value,
+    row 2 equals the observed summaries), one comparison of two models listed in both orders. *)
+Local Open Scope Q_scope.
+Definition C17_nv_summ : list (list fval) :=
+  [[Some 1; Some 2]; [None; Some 0]; [Some (1#2); Some (-1)]; [Some 3; Some 1]].
+Definition C17_nv_obs : list fval := [Some (1#2); Some (-1)].
+Definition C17_nv_theta : list fval := [Some 2; Some 5; Some 7; None].
+Definition C17_nv_X : list (list fval) := input_variables C17_nv_summ C17_nv_obs.
+Definition C17_nv_b : list Q := [2; -1].
+
+(** hypotheses of [C17_pairs_spec], [C17_adjust_param_spec], [C17_model_ok]; the mask is neither empty nor full *)
+Example C17_pairs_spec_nonvacuous :
+  length C17_nv_X = length C17_nv_theta /\ finite_indices C17_nv_X C17_nv_theta = [0; 2]%nat
+  /\ adjust_param C17_nv_X C17_nv_theta C17_nv_b
+     = List.map (fun i => Adjust.adj1 (fget (List.nth i C17_nv_theta None)) (List.map fget (List.nth i C17_nv_X [])) C17_nv_b)
+                (finite_indices C17_nv_X C17_nv_theta).
+Proof.
+  assert (H : length C17_nv_X = length C17_nv_theta) by reflexivity.
+  split; [exact H|]. split; [vm_compute; reflexivity|]. exact (C17_adjust_param_spec _ _ _ H).
+Qed.
+
+(** hypotheses of [C17_ok_sound_formula] and [C17_ok_sound_fixed] (with a fitted row whose regressors are all 0) *)
+Example C17_ok_sound_nonvacuous :
+  let Xf := fst (pairs C17_nv_X C17_nv_theta) in let thf := snd (pairs C17_nv_X C17_nv_theta) in
+  let out := adjust_param C17_nv_X C17_nv_theta C17_nv_b in
+  close_rows tol_formula Xf thf C17_nv_b out = true /\ zero_rows_fixed Xf thf out = true
+  /\ length Xf = 2%nat /\ length thf = 2%nat /\ length out = 2%nat
+  /\ List.Forall (fun x => x == 0) (List.nth 1 Xf []) /\ List.nth 1 out 0 == List.nth 1 thf 0.
+Proof.
+  cbv zeta. split; [vm_compute; reflexivity|]. split; [vm_compute; reflexivity|].
+  split; [vm_compute; reflexivity|]. split; [vm_compute; reflexivity|]. split; [vm_compute; reflexivity|].
+  split; [vm_compute; repeat constructor|]. vm_compute; reflexivity.
+Qed.
+
+(** hypotheses of [C17_input_row_finite] (on a row with a non-finite entry and on a finite one) and of
+    [C17_unchanged_at_observed] *)
+Example C17_input_row_finite_nonvacuous :
+  List.Forall (fun o => isfinite o = true) C17_nv_obs
+  /\ length [None; Some 0] = length C17_nv_obs /\ length [Some 3; Some 1] = length C17_nv_obs
+  /\ row_finite (zipw fsub [None; Some 0] C17_nv_obs) = false
+  /\ row_finite (zipw fsub [Some 3; Some 1] C17_nv_obs) = true
+  /\ Adjust.adj1 7 (List.map fget (zipw fsub C17_nv_obs C17_nv_obs)) C17_nv_b == 7.
+Proof.
+  assert (H : List.Forall (fun o => isfinite o = true) C17_nv_obs) by (repeat constructor).
+  split; [exact H|]. split; [reflexivity|]. split; [reflexivity|].
+  split; [rewrite (C17_input_row_finite [None; Some 0] _ H Logic.eq_refl); reflexivity|].
+  split; [rewrite (C17_input_row_finite [Some 3; Some 1] _ H Logic.eq_refl); reflexivity|].
+  exact (C17_unchanged_at_observed _ 7 C17_nv_b H).
+Qed.
+
+(** hypotheses of [C17_finite_indices_listing] and [C17_listing_invariant] *)
+Example C17_listing_invariant_nonvacuous :
+  List.Forall (fun row => length row = length C17_nv_obs) C17_nv_summ /\ length C17_nv_b = length C17_nv_obs
+  /\ is_perm (length C17_nv_obs) (1 :: [0])%nat = true /\ length C17_nv_summ = length C17_nv_theta
+  /\ finite_indices (permute_cols (1 :: [0])%nat C17_nv_summ) C17_nv_theta = finite_indices C17_nv_summ C17_nv_theta.
+Proof.
+  assert (H : List.Forall (fun row => length row = length C17_nv_obs) C17_nv_summ) by (repeat constructor).
+  split; [exact H|]. split; [reflexivity|]. split; [reflexivity|]. split; [reflexivity|].
+  exact (C17_finite_indices_listing (1 :: [0])%nat _ C17_nv_theta _ H Logic.eq_refl Logic.eq_refl).
+Qed.
+
+(** model comparison: two models, listed in both orders, a valid tie order for each, a clean cut at t = 1 *)
+Definition C17_nv_m1 : cmodel := {| m_disc := (1 :: [3; 3]); m_nsim := 10; m_w := 1#4 |}.
+Definition C17_nv_m2 : cmodel := {| m_disc := [0; 2; 5; 1]; m_nsim := 20; m_w := 3#4 |}.
+Definition C17_nv_ms : list cmodel := [C17_nv_m1; C17_nv_m2].
+Definition C17_nv_ms' : list cmodel := [C17_nv_m2; C17_nv_m1].
+Definition C17_nv_order : list nat := [3; 0; 6; 4; 1; 2; 5]%nat.
+Definition C17_nv_order' : list nat := [0; 3; 4; 1; 5; 6; 2]%nat.
+
+Example C17_compare_equivariant_nonvacuous :
+  C17_nv_ms <> [] /\ Permutation C17_nv_ms C17_nv_ms'
+  /\ Permutation C17_nv_order (List.seq 0 (length (all_disc C17_nv_ms)))
+  /\ clean_cut (all_disc C17_nv_ms) (firstn (n_min C17_nv_ms) C17_nv_order) (skipn (n_min C17_nv_ms) C17_nv_order) 1
+  /\ Permutation C17_nv_order' (List.seq 0 (length (all_disc C17_nv_ms')))
+  /\ clean_cut (all_disc C17_nv_ms') (firstn (n_min C17_nv_ms') C17_nv_order') (skipn (n_min C17_nv_ms') C17_nv_order') 1
+  /\ compare_models C17_nv_ms C17_nv_order = Some ((1#4) :: [3#4])
+  /\ compare_models C17_nv_ms' C17_nv_order' = Some [3#4; 1#4].
+Proof.
+  split; [discriminate|]. split; [apply perm_swap|].
+  split; [apply C17_valid_order_perm; vm_compute; reflexivity|].
+  split; [split; intros j Hj; simpl in Hj;
+          repeat (destruct Hj as [<-|Hj]; [vm_compute; reflexivity|]); destruct Hj|].
+  split; [apply C17_valid_order_perm; vm_compute; reflexivity|].
+  split; [split; intros j Hj; simpl in Hj;
+          repeat (destruct Hj as [<-|Hj]; [vm_compute; reflexivity|]); destruct Hj|].
+  split; vm_compute; reflexivity.
+Qed.
+
+(** hypotheses of [C17_clean_threshold_exists]: the three smallest discrepancies against the other four *)
+Example C17_clean_threshold_exists_nonvacuous :
+  [3; 0; 6]%nat <> [] /\
+  (forall a b, In a [3; 0; 6]%nat -> In b [4; 1; 2; 5]%nat ->
+               List.nth a (all_disc C17_nv_ms) 0 < List.nth b (all_disc C17_nv_ms) 0).
+Proof.
+  split; [discriminate|]. intros a b Ha Hb. simpl in Ha, Hb.
+  repeat (destruct Ha as [<-|Ha];
+          [repeat (destruct Hb as [<-|Hb]; [vm_compute; reflexivity|]); destruct Hb|]).
+  destruct Ha.
+Qed.
+
+(** hypotheses of [C17_compare_zero_weight] (and of [C17_compare_sum_one] / [C17_compare_proportion]) *)
+Example C17_compare_zero_weight_nonvacuous :
+  let m0 := {| m_disc := (1 :: [3; 3]); m_nsim := 10; m_w := 0 |} in
+  let ms := [ m0; {| m_disc := [0; 2; 5; 1]; m_nsim := 20; m_w := 3#4 |};
+              {| m_disc := [4; 0; 7]; m_nsim := 5; m_w := 1#4 |} ] in
+  compare_models ms [3; 8; 0; 6; 4; 1; 2; 7; 5; 9]%nat = Some [0; 3#7; 4#7]
+  /\ nth_error ms 0 = Some m0 /\ m_w m0 == 0.
+Proof. cbv zeta. split; [vm_compute; reflexivity|]. split; reflexivity. Qed.
+
+(** hypotheses of [C17_fit_ok_default], [C17_fit_ok_same_problem] (two different configurations of one problem) and
+    [C17_fit_ok_sound] (a non-default problem with an accepted fit: no intercept; non-negative slope) *)
+Example C17_fit_ok_nonvacuous :
+  let other := {| cf_fit_intercept := true; cf_copy_X := false; cf_positive := false; cf_n_jobs := Some (Zpos 2) |} in
+  let noic := {| cf_fit_intercept := false; cf_copy_X := false; cf_positive := false; cf_n_jobs := Some (Zpos 2) |} in
+  let noic' := {| cf_fit_intercept := false; cf_copy_X := true; cf_positive := false; cf_n_jobs := None |} in
+  let pos := {| cf_fit_intercept := true; cf_copy_X := false; cf_positive := true; cf_n_jobs := None |} in
+  cf_fit_intercept other = true /\ cf_positive other = false /\ other <> default_config
+  /\ same_problem noic noic' = true /\ noic <> noic'
+  /\ default_problem noic = false /\ fit_ok noic [(1 :: nil); [2]; [3]] (1 :: [2; 4]) 0 [17#14] = true
+  /\ default_problem pos = false /\ fit_ok pos [(1 :: nil); [2]; [3]] [4; 2; 1] (7#3) [0] = true.
+Proof. cbv zeta. repeat split; try discriminate; vm_compute; reflexivity. Qed.
+
+(** matrix level: every design with invertible Gram matrix HAS a least-squares fit, hence the fits the invariance theorems
+    assume exist for every invertible re-expression and every re-listing; and a concrete full-rank instance. *)
+Local Open Scope ring_scope.
+Example C17_nv_fit_exists : forall (F : fieldType) (n k : nat) (X : 'M[F]_(n, k)) (theta : 'cV[F]_n),
+  gram (design X) \in unitmx ->
+  let beta := invmx (gram (design X)) *m ((design X)^T *m theta) in
+  is_fit X theta (usubmx beta) (dsubmx beta).
+Proof.
+  move=> F n k X theta HG beta. rewrite /is_fit /normal_eq vsubmxK /beta.
+  rewrite /gram in HG *. by rewrite !mulmxA mulmxV // mul1mx.
+Qed.
+
+Definition C17_nv_X0 : 'M[rat]_(1 + 1, 1) := col_mx 0 1%:M.
+
+Example C17_nv_gram_unit : gram (design C17_nv_X0) \in unitmx /\ C17_nv_X0 != 0.
+Proof.
+  split.
+  - rewrite /gram unitmx_mul unitmx_tr andbb /design /ones /C17_nv_X0.
+    rewrite -(col_mx_const 1 1) -block_mxEh unitmxE det_lblock det1 mulr1 det_mx11 mxE. exact: unitr1.
+  - apply/eqP => /(congr1 dsubmx). rewrite col_mxKd => /matrixP /(_ ord0 ord0). rewrite !mxE. by [].
+Qed.
+
+Example C17_adjust_affine_invariant_nonvacuous :
+  forall (F : fieldType) (n k : nat) (S : 'M[F]_(n, k)) (o : 'rV[F]_k) (theta : 'cV[F]_n) (A : 'M[F]_k) (c : 'rV[F]_k)
+         (s : 'S_k),
+  gram (design (regressors S o)) \in unitmx -> A \in unitmx ->
+  exists (b0 : 'M[F]_1) (b : 'cV[F]_k) (b0' : 'M[F]_1) (b' : 'cV[F]_k) (b0'' : 'M[F]_1) (b'' : 'cV[F]_k),
+    [/\ is_fit (regressors S o) theta b0 b,
+        (exists (b0s : 'M[F]_1) (bs : 'cV[F]_k), is_fit (regressors S o *m A + ones F n *m c) theta b0s bs),
+        is_fit (regressors (S *m A + ones F n *m c) (o *m A + c)) theta b0' b' &
+        is_fit (regressors (col_perm s S) (col_perm s o)) theta b0'' b''].
+Proof.
+  move=> F n k S o theta A c s HG HA.
+  have Hf := C17_nv_fit_exists F n k (regressors S o) theta HG.
+  have Ht := C17_fit_transport F n k _ theta A c _ _ HA Hf.
+  have Hp := C17_fit_transport F n k _ theta (perm_mx s^-1) 0 _ _ (unitmx_perm F s^-1) Hf.
+  have Ht0 := C17_fit_transport F n k _ theta A 0 _ _ HA Hf. rewrite mulmx0 addr0 in Ht0.
+  do 6 eexists. split; [exact: Hf | by do 2 eexists; exact: Ht | by rewrite C17_regressors_affine; exact: Ht0 |].
+  have -> : col_perm s S = S *m perm_mx s^-1 + ones F n *m 0 by rewrite mulmx0 addr0 col_permE.
+  have -> : col_perm s o = o *m perm_mx s^-1 + 0 by rewrite addr0 col_permE.
+  rewrite C17_regressors_affine. rewrite mulmx0 addr0 in Hp. exact: Hp.
+Qed.
+
+(** a concrete full-rank instance over the rationals: two draws, one summary, summaries [3; 4] observed at 3
+    (regressors [0; 1]), re-expressed by s |-> 2 s + 5 *)
+Definition C17_nv_o0 : 'rV[rat]_1 := (3%:R)%:M.
+Definition C17_nv_S0 : 'M[rat]_(1 + 1, 1) := C17_nv_X0 + ones [fieldType of rat] (1 + 1) *m C17_nv_o0.
+Example C17_nv_concrete :
+  [/\ regressors C17_nv_S0 C17_nv_o0 = C17_nv_X0,
+      gram (design (regressors C17_nv_S0 C17_nv_o0)) \in unitmx,
+      \rank (design C17_nv_X0) = (1 + 1)%N,
+      ((2%:R)%:M : 'M[rat]_1) \in unitmx &
+      row (lshift 1 0) C17_nv_X0 = 0].
+Proof.
+  have HX : regressors C17_nv_S0 C17_nv_o0 = C17_nv_X0 by rewrite /regressors /C17_nv_S0 addrK.
+  have [HG _] := C17_nv_gram_unit.
+  split => //.
+  - by rewrite HX.
+  - apply: mxrank_unit. move: HG. by rewrite /gram unitmx_mul unitmx_tr andbb.
+  - by rewrite unitmxE det_scalar unitrX // unitfE.
+  - by rewrite /C17_nv_X0 rowKu row0.
+Qed.
